@@ -12,11 +12,16 @@ Fixpoint qmat_close (atol rtol : Q) (a b : qmat) : bool :=
 Fixpoint qmats_close (atol rtol : Q) (a b : list qmat) : bool :=
   match a, b with [], [] => true | x :: a', y :: b' => qmat_close atol rtol x y && qmats_close atol rtol a' b' | _, _ => false end.
 
-(* square root in Q: Newton from above, rounded to a 2^-120 grid (relative accuracy far below the tolerance) *)
-Definition qround (y : Q) : Q := Qred (Qmake (Qfloor (y * (2 ^ 120))%Q) (2 ^ 120)%positive).
+(* square root in Q: integer square root of the argument scaled to ~315 significant bits, i.e. ~157 correct
+   significant bits of the root (relative accuracy far below the tolerance), whatever the size of the exact rational *)
+Definition qscale (s : Z) (y : Q) : Q :=
+  if (0 <=? s)%Z then (y * inject_Z (2 ^ s))%Q else (y / inject_Z (2 ^ (- s)))%Q.
 Definition qsqrt (x : Q) : Q :=
   if Qle_bool x 0%Q then 0%Q
-  else iter_n 80 (fun y => qround ((y + x / y) / 2)%Q) (Qred ((x + 1) / 2)%Q).
+  else
+    let e := (Z.log2 (Qnum x) - Z.log2 (Zpos (Qden x)))%Z in
+    let s := (160 - e / 2)%Z in
+    Qred (qscale (- s) (inject_Z (Z.sqrt (Qfloor (qscale (2 * s) x))))).
 Definition qnrm2 (v : list Q) : Q := qsqrt (fold_right (fun x acc => Qred (x * x + acc)%Q) 0%Q v).
 
 Inductive op :=
@@ -56,7 +61,7 @@ Definition mu_cond (eps : Q) (T : tensor Q) (nm : bool) (modes : list nat) (n : 
 Definition run (o : op) : out :=
   match o with
   | OMuCp eps T w Fs nm modes n =>
-      let init := initialize_cp_user Qops w Fs in
+      let init := initialize_cp_user_norm Qops qnrm2 w Fs nm in
       let '(ok, _) := mu_cond eps T nm modes n init in
       if ok then
         let r := non_negative_parafac Qops qnrm2 eps (fun _ => cp_mu_num Qops T) (fun _ => cp_mu_den Qops) (fun _ _ => false) nm modes n init in
